@@ -320,6 +320,26 @@ PRelocInfo ReadRelocInfo(FILE* f) {
                         if (z == PInfo->ExportCount) {
                             OK = ((fread(PInfo->Strings, 1, StringLen, f)) == StringLen);
                         }
+
+                        /* names must lie inside the string table, which must
+                           itself be terminated */
+
+                        if (OK && (PInfo->RelocCount + PInfo->ExportCount > 0)
+                            && ((StringLen == 0) || (PInfo->Strings[StringLen - 1] != '\0'))) {
+                            OK = FALSE;
+                        }
+                        for (z = 0, PEntry = PInfo->RelocEntries;
+                             OK && (z < PInfo->RelocCount); z++, PEntry++) {
+                            if ((LongWord)(PEntry->Name - PInfo->Strings) >= StringLen) {
+                                OK = FALSE;
+                            }
+                        }
+                        for (z = 0, PExp = PInfo->ExportEntries;
+                             OK && (z < PInfo->ExportCount); z++, PExp++) {
+                            if ((LongWord)(PExp->Name - PInfo->Strings) >= StringLen) {
+                                OK = FALSE;
+                            }
+                        }
                     }
                 }
             }
